@@ -135,8 +135,10 @@ fn sig_len(len: usize) {
     assert!(refused, "an ed25519 signature that is not 64 bytes long reaches the verifier");
 }
 
+// the primitive is stubbed to accept: a signature that gets past the length guard is then
+// accepted, which the assertion reports (the refusal path would format the primitive's error)
 #[kani::proof]
-#[kani::stub(ed25519_dalek::VerifyingKey::verify_strict, ed_verify_strict_stub)]
+#[kani::stub(ed25519_dalek::VerifyingKey::verify_strict, ed_verify_strict_ok_stub)]
 #[kani::stub(alloc::fmt::format, crate::kh_support::fmt_format_stub)]
 #[kani::unwind(3)]
 fn c17_ed25519_signature_length() {
